@@ -375,3 +375,325 @@ Proof.
   unfold rng_content, b_content in P. rewrite (eng_view _ h I Hl Hok), Eh in P.
   rewrite (in_bounds_filter lo hi _ (spec_view_strict _)) in P. exact P.
 Qed.
+
+(* ------------------------------------------------------------------------------------ *)
+(* Part E: transaction iterators: the buffered operations overlaid                         *)
+(* ------------------------------------------------------------------------------------ *)
+
+Lemma buf_set_in : forall o l x, In x (buf_set o l) -> x = o \/ In x l.
+Proof.
+  intros o l x. induction l as [|y r IH]; cbn [buf_set]; [intros [E|[]]; left; congruence|].
+  destruct (bcmp (fst y) (fst o)); cbn [In].
+  - intros [E|H]; [left; congruence|right; right; exact H].
+  - intros [E|H]; [right; left; exact E|]. destruct (IH H); [left|right; right]; assumption.
+  - intros [E|[E|H]]; [left; congruence|right; left; exact E|right; right; exact H].
+Qed.
+
+Lemma buf_set_strict : forall o l, kstrict l -> kstrict (buf_set o l).
+Proof.
+  intros o l H. induction H as [|y r Hs IH Hf]; cbn [buf_set]; [repeat constructor|].
+  destruct (bcmp (fst y) (fst o)) eqn:C.
+  - apply bcmp_eq in C. constructor; [exact Hs|]. rewrite Forall_forall in *. intros z Hz.
+    unfold klt in *. rewrite <- C. apply Hf. exact Hz.
+  - constructor; [exact IH|]. rewrite Forall_forall in *. intros z Hz.
+    apply buf_set_in in Hz. destruct Hz as [->|Hz]; [unfold klt; apply blt_true_iff; exact C|apply Hf; exact Hz].
+  - assert (B : klt o y) by (unfold klt; apply blt_true_iff; apply bcmp_gt_lt; exact C).
+    constructor; [constructor; assumption|]. constructor; [exact B|].
+    rewrite Forall_forall in *. intros z Hz. unfold klt in *. eapply blt_trans; [exact B|apply Hf; exact Hz].
+Qed.
+
+Lemma lookup_buf_set : forall k o l, kstrict l ->
+  lookup k (buf_set o l) = if beq (fst o) k then Some (snd o) else lookup k l.
+Proof.
+  intros k o l H. induction H as [|y r Hs IH Hf]; cbn [buf_set lookup]; [reflexivity|].
+  destruct (bcmp (fst y) (fst o)) eqn:C; cbn [lookup].
+  - apply bcmp_eq in C. rewrite C. destruct (beq (fst o) k); reflexivity.
+  - rewrite IH. destruct (beq (fst y) k) eqn:B; [|reflexivity].
+    apply beq_true_iff in B. assert (N : beq (fst o) k = false).
+    { apply beq_false_iff. intros E. rewrite <- B in E. rewrite E, bcmp_refl in C. discriminate. }
+    rewrite N. reflexivity.
+  - reflexivity.
+Qed.
+
+Lemma buffer_ops_gen : forall ops b k, kstrict b ->
+  kstrict (fold_left (fun b o => buf_set o b) ops b) /\
+  lookup k (fold_left (fun b o => buf_set o b) ops b) =
+  match last_effect k ops with Some x => Some x | None => lookup k b end.
+Proof.
+  induction ops as [|[k0 v0] ops IH]; intros b k Hb; cbn [fold_left last_effect]; [split; [exact Hb|reflexivity]|].
+  destruct (IH (buf_set (k0, v0) b) k (buf_set_strict _ _ Hb)) as (A & B). split; [exact A|].
+  rewrite B. destruct (last_effect k ops); [reflexivity|].
+  rewrite (lookup_buf_set k (k0, v0) b Hb). cbn [fst snd]. destruct (beq k0 k); reflexivity.
+Qed.
+
+Lemma buffer_ops_strict : forall ops, kstrict (buffer_ops ops).
+Proof. intros ops. apply (buffer_ops_gen ops [] []). constructor. Qed.
+
+(* the buffer holds the last operation on each key *)
+Lemma lookup_buffer_ops : forall ops k, lookup k (buffer_ops ops) = last_effect k ops.
+Proof.
+  intros ops k. assert (K : kstrict []) by constructor.
+  pose proof (proj2 (buffer_ops_gen ops [] k K)) as E. unfold buffer_ops.
+  etransitivity; [exact E|]. destruct (last_effect k ops); reflexivity.
+Qed.
+
+Lemma buf_set_nonempty : forall o l, buf_set o l <> [].
+Proof. intros o [|x r]; cbn [buf_set]; [discriminate|]. destruct (bcmp (fst x) (fst o)); discriminate. Qed.
+
+Lemma fold_buf_nonempty : forall ops (b : list bop), b <> [] -> fold_left (fun b o => buf_set o b) ops b <> [].
+Proof.
+  induction ops as [|o ops IH]; intros b Hb; [exact Hb|]. cbn [fold_left]. apply IH. apply buf_set_nonempty.
+Qed.
+
+Lemma buffer_ops_nil : forall ops, buffer_ops ops = [] -> ops = [].
+Proof.
+  intros [|o ops] H; [reflexivity|exfalso]. unfold buffer_ops in H. cbn [fold_left] in H.
+  exact (fold_buf_nonempty ops _ (buf_set_nonempty o []) H).
+Qed.
+
+Lemma lookup_strict : forall l k v, kstrict l -> (lookup k l = Some v <-> In (k, v) l).
+Proof.
+  intros l k v H. split; [apply lookup_some_in|]. induction H as [|x r Hs IH Hf]; intros Hin; [destruct Hin|].
+  cbn [lookup]. destruct Hin as [->|Hin]; [cbn [fst snd]; rewrite beq_refl; reflexivity|].
+  rewrite Forall_forall in Hf. specialize (Hf _ Hin). unfold klt in Hf. cbn [fst] in Hf.
+  rewrite (beq_false_lt _ _ Hf). apply IH. exact Hin.
+Qed.
+
+Lemma lookup_spec_view : forall h k, lookup k (spec_view h) = latest h k.
+Proof.
+  intros h k. destruct (latest h k) as [v|] eqn:La.
+  - apply lookup_strict; [apply spec_view_strict|]. apply spec_view_in. exact La.
+  - apply lookup_none_iff. intros [k' v'] Hin E. cbn [fst] in E. subst k'.
+    apply spec_view_in in Hin. congruence.
+Qed.
+
+(* what a transaction with buffered operations ops must see: the history with its own
+   operations already applied *)
+Definition overlay (h : list wop) (ops : list bop) : list wop := h ++ [WBatch ops].
+
+Lemma latest_overlay : forall h ops k,
+  latest (overlay h ops) k = match last_effect k ops with Some x => Some x | None => latest h k end.
+Proof.
+  intros h ops k. unfold latest, overlay, flat. rewrite flat_map_app. cbn [flat_map effects].
+  rewrite app_nil_r. apply last_effect_app.
+Qed.
+
+Lemma merge_buffer_view : forall h ops,
+  merge_view [buffer_ops ops; spec_view h] = spec_view (overlay h ops).
+Proof.
+  intros h ops.
+  assert (Hs : Forall ksorted [buffer_ops ops; spec_view h]).
+  { repeat constructor; apply kstrict_ksorted; [apply buffer_ops_strict|apply spec_view_strict]. }
+  apply kstrict_ext; [apply merge_view_strict; exact Hs|apply spec_view_strict|].
+  intros [k v]. rewrite (merge_view_in _ k v Hs), spec_view_in, latest_overlay.
+  cbn [first_val]. rewrite lookup_buffer_ops, lookup_spec_view.
+  destruct (last_effect k ops); destruct (latest h k); tauto.
+Qed.
+
+(* a lawful iterator stays lawful when [ok] also demands a property of the content *)
+Lemma Lawful_strengthen : forall S (I : Iter S) ok content rest (P : list kv -> Prop),
+  Lawful I ok content rest -> Lawful I (fun s => ok s /\ P (content s)) content rest.
+Proof.
+  intros S I ok content rest P L. constructor.
+  - intros s [H _]. apply (L_sorted _ _ _ _ L s H).
+  - intros s [H _]. apply (L_suffix _ _ _ _ L s H).
+  - intros s [H _]. apply (L_fuel _ _ _ _ L s H).
+  - intros s [H _]. apply (L_valid _ _ _ _ L s H).
+  - intros s [H _]. apply (L_key _ _ _ _ L s H).
+  - intros s [H _]. apply (L_value _ _ _ _ L s H).
+  - intros s [H _]. apply (L_tomb _ _ _ _ L s H).
+  - intros s [H HP]. destruct (L_first _ _ _ _ L s H) as (A & B & C). rewrite B. auto.
+  - intros s [H HP] V. destruct (L_next _ _ _ _ L s H V) as (A & B & C & D). rewrite B. auto.
+  - intros t s [H HP]. destruct (L_seek _ _ _ _ L t s H) as (A & B & C). rewrite B. auto.
+  - intros s [H HP]. destruct (L_last _ _ _ _ L s H) as (A & B & C). rewrite B. auto.
+Qed.
+
+(* ---- the full transaction iterator ---- *)
+Definition in_ok : src + hier src -> Prop := sum_ok src_ok eng_ok.
+Definition in_content : src + hier src -> list kv := sum_content s_all eng_content.
+Definition in_rest : src + hier src -> list kv := sum_rest s_cur eng_rest.
+
+Lemma Lin : Lawful (sum_iter src_iter eng_it) in_ok in_content in_rest.
+Proof. exact (sum_lawful src_iter eng_it src_ok s_all s_cur eng_ok eng_content eng_rest src_lawful Leng). Qed.
+
+Definition txh_ok := hier_ok in_ok in_content in_rest.
+Definition txh_content := hier_content in_content.
+Definition txh_rest := hier_rest in_content.
+
+Lemma Ltxh : Lawful (hier_iter (sum_iter src_iter eng_it)) txh_ok txh_content txh_rest.
+Proof. exact (hier_lawful _ in_ok in_content in_rest Lin). Qed.
+
+Definition tx_ok : txS -> Prop := sum_ok eng_ok txh_ok.
+Definition tx_content : txS -> list kv := sum_content eng_content txh_content.
+Definition tx_rest : txS -> list kv := sum_rest eng_rest txh_rest.
+
+Lemma Ltx : Lawful tx_it tx_ok tx_content tx_rest.
+Proof. exact (sum_lawful eng_it _ eng_ok eng_content eng_rest txh_ok txh_content txh_rest Leng Ltxh). Qed.
+
+Lemma buf_src_ok : forall ops, src_ok (buf_src ops).
+Proof.
+  intros ops. unfold src_ok, buf_src. cbn [s_all s_kind s_cur].
+  split; [apply kstrict_ksorted; apply buffer_ops_strict|]. split; [right; apply buffer_ops_strict|].
+  exists (buffer_ops ops). symmetry. apply app_nil_r.
+Qed.
+
+Lemma tx_full_ok : forall s ops, stack_ok s -> tx_ok (tx_full s ops).
+Proof.
+  intros s ops H. unfold tx_full. destruct (buffer_ops ops) eqn:B; cbn [tx_ok sum_ok].
+  - apply eng_iter_ok. exact H.
+  - unfold txh_ok, hier_ok, hier_new. cbn [h_srcs h_valid]. split; [|discriminate].
+    constructor; [cbn [in_ok sum_ok]; apply buf_src_ok|]. constructor; [|constructor].
+    cbn [in_ok sum_ok]. apply eng_iter_ok. exact H.
+Qed.
+
+Theorem tx_view : forall s h ops, Inv s h -> lost_log s = false -> stack_ok s ->
+  tx_content (tx_full s ops) = spec_view (overlay (map snd h) ops).
+Proof.
+  intros s h ops I Hl Hok. unfold tx_full. destruct (buffer_ops ops) as [|b0 br] eqn:B; cbn [tx_content sum_content].
+  - apply buffer_ops_nil in B. subst ops. rewrite (eng_view s h I Hl Hok).
+    unfold overlay, spec_view, spec_keys, latest, flat. rewrite flat_map_app. cbn [flat_map effects].
+    rewrite !app_nil_r. reflexivity.
+  - unfold txh_content, hier_content, h_contents, hier_new. cbn [h_srcs map in_content sum_content].
+    rewrite (eng_view s h I Hl Hok). unfold buf_src. cbn [s_all]. apply merge_buffer_view.
+Qed.
+
+Lemma tx_run_facts : forall c ops txops, lost_log (run c ops) = false ->
+  tx_ok (tx_full (run c ops) txops) /\
+  tx_content (tx_full (run c ops) txops) = spec_view (overlay (acked (init c) ops) txops).
+Proof.
+  intros c ops txops Hl. destruct (run_facts c ops Hl) as (h & I & Eh & Hok).
+  split; [apply tx_full_ok; exact Hok|]. rewrite (tx_view _ h txops I Hl Hok), Eh. reflexivity.
+Qed.
+
+(* a transaction's full iterator surfaces the history with its own operations applied *)
+Theorem tx_collect_full : forall c ops txops, lost_log (run c ops) = false ->
+  collect tx_it (tx_full (run c ops) txops) = spec_view (overlay (acked (init c) ops) txops).
+Proof.
+  intros c ops txops Hl. destruct (tx_run_facts c ops txops Hl) as (Hok & Ec).
+  rewrite (collect_spec _ _ _ _ Ltx _ Hok). exact Ec.
+Qed.
+
+Theorem tx_scan_full : forall c ops txops limit, lost_log (run c ops) = false ->
+  scan tx_it limit (tx_full (run c ops) txops) =
+  spec_scan_limit (overlay (acked (init c) ops) txops) None None (fun _ => true) limit.
+Proof.
+  intros c ops txops limit Hl. destruct (tx_run_facts c ops txops Hl) as (Hok & Ec).
+  rewrite (scan_spec _ _ _ _ Ltx limit _ Hok), take_lim_0, Ec, live_spec_view_all.
+  unfold spec_scan_limit, spec_scan.
+  rewrite (filter_ext (fun k => in_range None None k && true) (fun _ => true)) by reflexivity.
+  rewrite filter_true. reflexivity.
+Qed.
+
+(* ---- the transaction's range iterator ---- *)
+Lemma lookup_in_bounds : forall lo hi c k, kstrict c ->
+  lookup k (in_bounds lo hi c) = if in_range lo hi k then lookup k c else None.
+Proof.
+  intros lo hi c k H. pose proof (in_bounds_kstrict lo hi c H) as Hb.
+  destruct (lookup k (in_bounds lo hi c)) as [v|] eqn:E.
+  - apply (lookup_strict _ k v Hb) in E. apply in_bounds_in in E; [|exact H]. cbn [fst] in E.
+    destruct E as (Hin & Hl & Hh). unfold in_range. unfold in_lo in Hl. unfold in_hi in Hh. rewrite Hl, Hh.
+    cbn [andb]. symmetry. apply lookup_strict; assumption.
+  - destruct (in_range lo hi k) eqn:R; [|reflexivity].
+    destruct (lookup k c) as [v|] eqn:E2; [|reflexivity]. exfalso.
+    apply (lookup_strict _ k v H) in E2.
+    assert (Hin : In (k, v) (in_bounds lo hi c)).
+    { apply in_bounds_in; [exact H|]. cbn [fst]. unfold in_range in R. apply andb_true_iff in R. tauto. }
+    apply (lookup_strict _ k v Hb) in Hin. congruence.
+Qed.
+
+Lemma merge_view_in_bounds : forall lo hi cs, Forall kstrict cs ->
+  merge_view (map (in_bounds lo hi) cs) = in_bounds lo hi (merge_view cs).
+Proof.
+  intros lo hi cs H.
+  assert (Hs : Forall ksorted cs).
+  { rewrite Forall_forall in *. intros c Hc. apply kstrict_ksorted. apply H. exact Hc. }
+  assert (Hs' : Forall ksorted (map (in_bounds lo hi) cs)).
+  { rewrite Forall_forall in *. intros c Hc. apply in_map_iff in Hc. destruct Hc as (c0 & <- & Hc0).
+    apply kstrict_ksorted. apply in_bounds_kstrict. apply H. exact Hc0. }
+  pose proof (merge_view_strict cs Hs) as K.
+  apply kstrict_ext; [apply merge_view_strict; exact Hs'|apply in_bounds_kstrict; exact K|].
+  intros [k v]. rewrite (merge_view_in _ k v Hs'), (in_bounds_in lo hi _ _ K), (merge_view_in _ k v Hs). cbn [fst].
+  assert (F : first_val k (map (in_bounds lo hi) cs) = if in_range lo hi k then first_val k cs else None).
+  { clear - H. induction H as [|c r Hc Hr IH]; cbn [map first_val]; [destruct (in_range lo hi k); reflexivity|].
+    rewrite (lookup_in_bounds lo hi c k Hc), IH. destruct (in_range lo hi k); reflexivity. }
+  rewrite F. unfold in_range, in_lo, in_hi.
+  destruct (match lo with Some a => negb (blt k a) | None => true end);
+    destruct (match hi with Some e => blt k e | None => true end); cbn [andb]; split; try tauto; try discriminate;
+    intros (_ & A & B); discriminate.
+Qed.
+
+Definition bsrc_ok (s : src) : Prop := src_ok s /\ kstrict (s_all s).
+
+Lemma Lbsrc : forall lo hi,
+  Lawful (bounded_iter src_iter lo hi) bsrc_ok (b_content s_all lo hi) (b_rest src_iter s_cur lo hi).
+Proof.
+  intros lo hi. apply (bounded_lawful src_iter bsrc_ok s_all s_cur).
+  - exact (Lawful_strengthen _ src_iter src_ok s_all s_cur kstrict src_lawful).
+  - intros s [_ K]. exact K.
+Qed.
+
+Definition rin_ok : src + hier src -> Prop := sum_ok bsrc_ok eng_ok.
+Definition rin_content (lo hi : option bytes) : src + hier src -> list kv :=
+  sum_content (b_content s_all lo hi) (rng_content lo hi).
+Definition rin_rest (lo hi : option bytes) : src + hier src -> list kv :=
+  sum_rest (b_rest src_iter s_cur lo hi) (rng_rest lo hi).
+
+Lemma Lrin : forall lo hi,
+  Lawful (sum_iter (bounded_iter src_iter lo hi) (eng_range_it lo hi)) rin_ok (rin_content lo hi) (rin_rest lo hi).
+Proof. intros lo hi. exact (sum_lawful _ _ _ _ _ _ _ _ (Lbsrc lo hi) (Lrng lo hi)). Qed.
+
+Definition txr_ok (lo hi : option bytes) : txS -> Prop :=
+  sum_ok eng_ok (hier_ok rin_ok (rin_content lo hi) (rin_rest lo hi)).
+Definition txr_content (lo hi : option bytes) : txS -> list kv :=
+  sum_content (rng_content lo hi) (hier_content (rin_content lo hi)).
+Definition txr_rest (lo hi : option bytes) : txS -> list kv :=
+  sum_rest (rng_rest lo hi) (hier_rest (rin_content lo hi)).
+
+Lemma Ltxr : forall lo hi, Lawful (tx_range_it lo hi) (txr_ok lo hi) (txr_content lo hi) (txr_rest lo hi).
+Proof.
+  intros lo hi. apply sum_lawful; [apply Lrng|]. apply hier_lawful. apply Lrin.
+Qed.
+
+Lemma tx_range_ok : forall s ops lo hi, stack_ok s -> txr_ok lo hi (tx_range s ops).
+Proof.
+  intros s ops lo hi H. unfold tx_range, tx_full. destruct (buffer_ops ops) eqn:B; cbn [txr_ok sum_ok].
+  - apply eng_iter_ok. exact H.
+  - unfold hier_ok, hier_new. cbn [h_srcs h_valid]. split; [|discriminate].
+    constructor; [cbn [rin_ok sum_ok]; split; [apply buf_src_ok|apply buffer_ops_strict]|].
+    constructor; [|constructor]. cbn [rin_ok sum_ok]. apply eng_iter_ok. exact H.
+Qed.
+
+Theorem tx_range_view : forall s h ops lo hi, Inv s h -> lost_log s = false -> stack_ok s ->
+  txr_content lo hi (tx_range s ops) =
+  filter (fun x => in_range lo hi (fst x)) (spec_view (overlay (map snd h) ops)).
+Proof.
+  intros s h ops lo hi I Hl Hok. rewrite <- (in_bounds_filter lo hi _ (spec_view_strict _)).
+  unfold tx_range, tx_full. destruct (buffer_ops ops) as [|b0 br] eqn:B; cbn [txr_content sum_content].
+  - apply buffer_ops_nil in B. subst ops. unfold rng_content, b_content. rewrite (eng_view s h I Hl Hok).
+    f_equal. unfold overlay, spec_view, spec_keys, latest, flat. rewrite flat_map_app. cbn [flat_map effects].
+    rewrite !app_nil_r. reflexivity.
+  - unfold hier_content, h_contents, hier_new. cbn [h_srcs map rin_content sum_content].
+    unfold rng_content, b_content. rewrite (eng_view s h I Hl Hok). unfold buf_src. cbn [s_all].
+    rewrite <- merge_buffer_view.
+    apply (merge_view_in_bounds lo hi [buffer_ops ops; spec_view (map snd h)]).
+    repeat constructor; [apply buffer_ops_strict|apply spec_view_strict].
+Qed.
+
+Theorem tx_scan_range : forall c ops txops lo hi limit, lost_log (run c ops) = false ->
+  scan (tx_range_it lo hi) limit (tx_range (run c ops) txops) =
+  spec_scan_limit (overlay (acked (init c) ops) txops) lo hi (fun _ => true) limit.
+Proof.
+  intros c ops txops lo hi limit Hl. destruct (run_facts c ops Hl) as (h & I & Eh & Hok).
+  rewrite (scan_spec _ _ _ _ (Ltxr lo hi) limit _ (tx_range_ok _ txops lo hi Hok)), take_lim_0.
+  rewrite (tx_range_view _ h txops lo hi I Hl Hok), Eh, live_spec_view.
+  unfold spec_scan_limit, spec_scan. rewrite filter_ext_in_range. reflexivity.
+Qed.
+
+Theorem tx_collect_range : forall c ops txops lo hi, lost_log (run c ops) = false ->
+  collect (tx_range_it lo hi) (tx_range (run c ops) txops) =
+  filter (fun x => in_range lo hi (fst x)) (spec_view (overlay (acked (init c) ops) txops)).
+Proof.
+  intros c ops txops lo hi Hl. destruct (run_facts c ops Hl) as (h & I & Eh & Hok).
+  rewrite (collect_spec _ _ _ _ (Ltxr lo hi) _ (tx_range_ok _ txops lo hi Hok)).
+  rewrite (tx_range_view _ h txops lo hi I Hl Hok), Eh. reflexivity.
+Qed.
